@@ -449,12 +449,19 @@ class Executor:
                 return v.field_cell(ast[2], ast[3])
             raise Unsupported(f"field {ast[2]} of non-aggregate {v!r}")
         if k == "index":
-            if for_write:
-                raise Unsupported("write through an index projection")
             c = self.place_cell(frame, ast[1])
             v = c.val
             if not isinstance(v, Agg):
                 raise Unsupported(f"index into non-aggregate {v!r}")
+            # element type from the annotated type of the indexed place:  ((*_1).14: [u8; 1024])[_14]
+            if ast[1][0] == "field" and isinstance(ast[1][3], str):
+                mt = re.match(r"^\[(.*?)(?:; [^;\]]+)?\]$", ast[1][3].strip())
+                if mt:
+                    self._elem_hint = mt.group(1).strip()
+            if for_write:
+                # a store to one element: everything known about the other (possibly aliasing) elements is forgotten
+                for kk in [kk for kk in v.fields if kk.startswith("[")]:
+                    del v.fields[kk]
             if re.match(r"^_\d+$", ast[2]):
                 iv = self.place_cell(frame, ("local", ast[2])).val
                 key = "[" + (iv.term if isinstance(iv, Leaf) else repr(iv)) + "]"
